@@ -267,6 +267,13 @@ def _corpus_families(big):
                 des = [0, 1, 2, 3] if any(2 in cr for cr in crossings) else [0, 1, 3]
                 out.append({"factors": [c, t, m3, tr], "block": {"k": "multicross", "design": des, "crossings": crossings,
                             "cs": [], "rcc": True, "mode": mode, "align": align}})
+    # a weighted factor that is in one crossing but not in the other (it must not be split into copies)
+    wcol = _sf(0, ["red", "blue"], [2, 1])
+    sz3 = _sf(1, ["a", "b", "c"])
+    for mode in ("weight", "repeat"):
+        for crossings in ([[0], [1]], [[1], [0]]):
+            out.append({"factors": [wcol, sz3], "block": {"k": "multicross", "design": [0, 1], "crossings": crossings,
+                        "cs": [], "rcc": True, "mode": mode, "align": "equal preamble"}})
     out.mark()
     # Exclude on a within-trial derived level whose factor is outside the crossing (sources partly outside too)
     col, wrd = _sf(0, ["r", "g"]), _sf(1, ["r", "g"])
@@ -316,6 +323,20 @@ def _corpus_families(big):
                         "cs": [{"k": "MinimumTrials", "n": 4}]}})
             out.append({"factors": [col, src, wf], "block": {"k": "cross", "design": [0, 1, 2], "crossing": [0], "rcc": True,
                         "cs": [{"k": "MinimumTrials", "n": 4}, {"k": "AtMostKInARow", "n": 2, "f": 2, "l": 0}]}})
+    # early explicit starts whose level depends on *whether* the oldest window position exists (None before trial 0),
+    # for an implied factor, a constrained one and a crossed one
+    src2 = _sf(1, ["x", "y"])
+    for width, start in ((2, 0), (3, 1), (3, 0)):
+        size = 3 ** width
+        first = [1 if (i // 3 ** (width - 1)) == 0 else 0 for i in range(size)]
+        mixed = [1 if ((i // 3 ** (width - 1)) == 0) != (i % 3 == 1) else 0 for i in range(size)]
+        for tbl in (first, mixed):
+            wf = {"id": 2, "name": "f2", "window": {"deps": [1], "width": width, "stride": 1, "start": start, "kind": "window"},
+                  "levels": [{"name": "A", "w": 1, "table": tbl}, {"name": "B", "w": 1, "table": [1 - x for x in tbl]}]}
+            out.append({"factors": [col, src2, wf], "block": {"k": "cross", "design": [0, 1, 2], "crossing": [0, 1], "rcc": True,
+                        "cs": []}})
+            out.append({"factors": [col, src2, wf], "block": {"k": "cross", "design": [0, 1, 2], "crossing": [0, 1], "rcc": True,
+                        "cs": [{"k": "AtMostKInARow", "n": 3, "f": 2, "l": 0}]}})
     out.mark()
     # uncrossed independent factor with excluded levels and a partial last chunk (RandomGen's leftover round)
     c3u = _sf(1, ["c1", "c2", "c3"])
